@@ -24,14 +24,14 @@ META = {
         "Distinct = distinct (basis, op list)."
     ),
     "assumptions": [
-        "model: ref.av filters all of S_n with the reference (mesh) containment; n <= 7 (8 thorough) classical, <= 5 mesh; long_levels: incremental oracle (new maximum inserted, only new occurrences tested) up to length 9 (11 thorough), cross-checked against the filter oracle in the self-test",
+        "model: ref.av filters all of S_n with the reference (mesh) containment; n <= 7 (8 thorough) classical, <= 5 mesh; long_levels: incremental oracle (new maximum inserted, only new occurrences tested) up to length 10 (12 thorough) when the basis has an element of length 3, else 9 (11), cross-checked against the filter oracle in the self-test",
         "order inside a level is not part of the property; only the set, multiplicity and length order are compared",
         "is_subclass truth: classical = basis containment theorem; with a mesh basis = bounded comparison up to the length bound (only a found counter-example refutes)",
     ],
 }
 
 NMAX_CL = 7
-INST_OPS = {"count", "of_length", "up_to", "enum", "first", "in", "open", "subclass"}
+INST_OPS = {"count", "of_length", "up_to", "enum", "first", "in", "open", "subclass", "abort"}
 NMAX_MESH = 5
 
 
@@ -202,6 +202,25 @@ class Interp:
         n = min(n, self.nmax)
         self._request(n)
         got = inst.count(n)
+        if got != len(self.level(n)):
+            return BAD("count", {"n": n, "got": got, "want": len(self.level(n))})
+        return None
+
+    def op_abort(self, inst, n, k):
+        """A request that is aborted part-way (asynchronous exception when the k-th line of
+        permset.py is about to run - Ctrl-C during a long enumeration) is an operation requested
+        before: later answers must not depend on it.  If the call finishes first it is an
+        ordinary count."""
+        import permuta.perm_sets.permset as permset_mod
+
+        from .. import disturb
+
+        n = min(n, self.nmax)
+        status, got, _ = disturb.abort_at(lambda: inst.count(n), {permset_mod.__file__}, k)
+        if status == "aborted":
+            self.flags.add("aborted_request")
+            return None
+        self._request(n)
         if got != len(self.level(n)):
             return BAD("count", {"n": n, "got": got, "want": len(self.level(n))})
         return None
@@ -429,7 +448,7 @@ def check_history(case):
             return out
     if known is not None:
         return known
-    nt = bool(it.flags & {"non_monotone", "deep_first_query", "jump", "iterator_alive_across_deeper_request", "clear_between_uses"})
+    nt = bool(it.flags & {"non_monotone", "deep_first_query", "jump", "iterator_alive_across_deeper_request", "clear_between_uses", "aborted_request"})
     labels = ["mesh_basis" if it.mesh else "classical_basis"] + sorted(it.flags)
     return OK(nt, *labels)
 
@@ -511,7 +530,7 @@ def op_lists(draw, basis, max_ops=12):
     for _ in range(nops):
         kind = draw(
             st.sampled_from(
-                ["count", "count", "of_length", "of_length", "up_to", "enum", "first", "in", "in", "open", "open", "advance", "advance", "subclass", "clear", "other", "recreate", "recreate"]
+                ["count", "count", "of_length", "of_length", "up_to", "enum", "first", "in", "in", "open", "open", "advance", "advance", "subclass", "clear", "other", "recreate", "recreate", "abort", "abort"]
             )
         )
         inst = draw(st.integers(0, 3))
@@ -519,6 +538,8 @@ def op_lists(draw, basis, max_ops=12):
             ops.append([kind, inst, draw(lens)])
         elif kind == "first":
             ops.append([kind, inst, draw(st.integers(0, 60 if not mesh else 30))])
+        elif kind == "abort":
+            ops.append([kind, inst, draw(st.integers(2, nmax)), int(2 ** draw(st.floats(0, 13)))])
         elif kind == "in":
             ops.append([kind, inst, list(draw(gen.perms(0, nmax + 1)))])
         elif kind == "open":
@@ -656,7 +677,8 @@ def long_cases(draw, nmax):
         basis = [list(draw(gen.perm_of(3)))] + [list(p) for p in draw(st.lists(gen.perms(3, 5), max_size=2))]
     else:
         basis = [list(draw(gen.perm_of(4))), list(draw(gen.perm_of(4)))] + [list(p) for p in draw(st.lists(gen.perms(4, 5), max_size=1))]
-    n = draw(st.integers(8, nmax))
+    # classes with a basis element of length 3 grow at most like the Catalan numbers: one level further
+    n = draw(st.integers(8, nmax + 1 if len(basis[0]) == 3 else nmax))
     order = list(range(n + 1))
     kind = draw(st.sampled_from(["down", "up", "mixed"]))
     if kind == "down":
@@ -667,6 +689,12 @@ def long_cases(draw, nmax):
 
 
 def shard_long(acc, shard, nshards, n_cases, nmax):
+    # deterministic part: each single pattern of length 3 (Catalan classes), every level up to nmax+1
+    import itertools
+
+    for i, p in enumerate(itertools.permutations(range(3))):
+        if i % nshards == shard:
+            acc.record("long_levels", check_long_levels, {"basis": [list(p)], "n": nmax + 1, "order": list(range(nmax + 2))})
     engine.hyp_run(acc, "long_levels", check_long_levels, long_cases(nmax), n_cases, shard)
 
 
